@@ -518,6 +518,8 @@ func propC02(c *Ctx) {
 		})
 	}
 	defer func() {
+		rfc := c.Rule("free-const", "the symbol of a captured variable inherits the Constant flag: a constant cannot be assigned from inside a function literal", 1)
+		ruleFreeConst(c, rfc)
 		rdf := c.Rule("define-fresh", "a := declaration of a local is always compiled to OpDefineLocal, never to an assignment opcode: one fresh variable per executed declaration", 1)
 		ruleDefineFresh(c, rdf)
 	}()
